@@ -41,7 +41,9 @@ CLAIMS = {
          "tokens, parsed to the program of ns and rendered by the model of EvaluateString as the specification says "
          "(C02_from_source_bytes_to_output); Proofs/LineIrrelevance.v (programs equal up to line fields evaluate alike except for the "
          "line of an error - mutual induction over all nine evaluation functions) lifts this to templates on any number of lines "
-         "(C02_from_source_bytes_to_output_any_lines). Tied to evaluator.go / parser.go / lexer.go by the correspondence run; the specification is "
+         "(C02_from_source_bytes_to_output_any_lines), and Proofs/EvalMono.v (an outcome other than out-of-fuel is the outcome for "
+         "every larger fuel - mutual induction again) removes the bound on the evaluator's fixed fuel: whenever the model of "
+         "EvaluateString answers, it answers what the specification says (C02_from_source_bytes_whenever_it_answers). Tied to evaluator.go / parser.go / lexer.go by the correspondence run; the specification is "
          "also the oracle on enumerated @if shapes.", "8.C02",
          "refinement proof model-evaluator vs big-step specification + correspondence + extracted specification as oracle"),
  "C03": ("proof", "Same refinement theorem for loops: the model's each_loop / for_loop (marker objects found by a recursive scan through "
